@@ -1102,6 +1102,12 @@ class Model(object):
                     if "s" in fs:
                         pat = "(?s)" + pat        # carried as a global inline flag: same language, and the engine reads it from there
                 return RegexConst(pat, flags)
+            if fname == "re.escape" and len(node.args) == 1 and not node.keywords:
+                v_ = ev(node.args[0], m, env)
+                if not isinstance(v_, str):
+                    raise NotConst("re.escape of non-string")
+                import re as _re_
+                return _re_.escape(v_)
             if fname == "type" and len(node.args) == 1 and isinstance(node.args[0], ast.Constant) and node.args[0].value is None:
                 return TypeMarker("NoneType")
             if fname == "namedtuple":
